@@ -112,7 +112,7 @@ fn main() {
             Crash::Library(msg, loc) => {
               let sig = "C12/cache/panic/library".to_string();
               res.violation(&sig, &format!("library panicked: {} at {}", msg, loc), &args.replay_dir,
-                &json!({"seed": args.seed, "shard": args.shard, "case_index": n - 1, "config": cfg, "panic": msg, "location": loc}));
+                &json!({"seed": args.seed, "shard": args.shard, "case_index": n - 1, "found_after_s": args.elapsed_s(), "config": cfg, "panic": msg, "location": loc}));
             }
             Crash::Harness(m) => {
               res.count("harness_panics", 1);
@@ -159,7 +159,7 @@ fn main() {
           (upto.to_vec(), Vec::new())
         };
         let witness = json!({
-          "seed": args.seed, "shard": args.shard, "case_index": n - 1,
+          "seed": args.seed, "shard": args.shard, "case_index": n - 1, "found_after_s": args.elapsed_s(),
           "minimal_program": program_json(&cfg, &min_ops),
           "minimal_program_observed": min_trace,
           "program": program_json(&cfg, &ops),
@@ -191,7 +191,7 @@ fn main() {
             Crash::Stuck => res.inconclusive("async call made no progress within the watchdog"),
             Crash::Library(msg, loc) => {
               res.violation("C17/cache/panic/library", &format!("library panicked: {} at {}", msg, loc), &args.replay_dir,
-                &json!({"seed": args.seed, "shard": args.shard, "case_index": n - 1, "case": case17_json(&case), "panic": msg, "location": loc}));
+                &json!({"seed": args.seed, "shard": args.shard, "case_index": n - 1, "found_after_s": args.elapsed_s(), "case": case17_json(&case), "panic": msg, "location": loc}));
             }
             Crash::Harness(m) => {
               res.count("harness_panics", 1);
@@ -224,7 +224,7 @@ fn main() {
           continue;
         }
         let witness = json!({
-          "seed": args.seed, "shard": args.shard, "case_index": n - 1,
+          "seed": args.seed, "shard": args.shard, "case_index": n - 1, "found_after_s": args.elapsed_s(),
           "case": case17_json(&case),
           "observed": o.trace,
           "finding": {"signature": sig, "detail": f.detail},
